@@ -762,7 +762,11 @@ fn token_classes() -> Vec<(Vec<u8>, &'static str)>
 		("12345", "num"), ("0", "num"), ("0b1011", "num"), ("0o777", "num"), ("0xDeadBeef", "num"),
 		("'a'", "num"), ("'\\n'", "num"), ("'\\''", "num"), ("'\u{e9}'", "num"), ("'\u{1F600}'", "num"), ("'\t'", "num"),
 		("x", "id"), ("MOVS", "id"), ("_a.b$c@9", "id"),
-		("\"\"", "str"), ("\"plain text\"", "str"), ("\"a\\tb\\\"c\\u{e9}\"", "str"), ("\"h\u{e9}llo \u{1F600}\"", "str"), ("\"\u{20AC}\\n\u{e9}\\u{1F600}\"", "str"), ("\"tab\there\"", "str")]
+		("\"\"", "str"), ("\"plain text\"", "str"), ("\"a\\tb\\\"c\\u{e9}\"", "str"), ("\"h\u{e9}llo \u{1F600}\"", "str"), ("\"\u{20AC}\\n\u{e9}\\u{1F600}\"", "str"), ("\"tab\there\"", "str"),
+		// characters whose UTF-8 encodings hit the extremes of the lead and continuation byte ranges (0x80 / 0xBF)
+		("'\u{80}'", "num"), ("'\u{BF}'", "num"), ("'\u{FF}'", "num"), ("'\u{7FF}'", "num"), ("'\u{800}'", "num"), ("'\u{FFFD}'", "num"),
+		("'\u{FFFF}'", "num"), ("'\u{10000}'", "num"), ("'\u{10FFFF}'", "num"),
+		("\"\u{BF}\u{FF}\u{17F}\u{FEFF}\u{FFFD}\u{80}\u{7FF}\u{800}\u{3FFFF}\u{10FFFF}\"", "str")]
 	{
 		v.push((t.as_bytes().to_vec(), k));
 	}
@@ -776,7 +780,7 @@ fn separator_atoms() -> Vec<(Vec<u8>, bool)>
 		("// line comment\n", true), ("//\n", true), ("// h\u{e9}llo \u{1F600} /* not a block\n", true), ("//\t\"'\\\r\n", true),
 		("/**/", true), ("/* block */", true), ("/* \u{e9}\u{20AC}\u{1F600} */", true), ("/* line1\nline2 \u{e9}\n\tline3 */", true),
 		("/* a /* nested \u{e9} */ b */", true), ("/* /* /* */ */\n */", true), ("/*/ */", true), ("/*\r\n*/", true), ("/* // */", true),
-		("/* \" ' */", true)]
+		("/* \" ' */", true), ("/* \u{BF}\u{FF}\u{17F} */", true), ("// \u{FFFD}\u{FEFF}\u{80}\u{7FF}\n", true), ("/* \u{800}\u{FFFF}\n\u{10000}\u{3FFFF}\u{10FFFF} */", true)]
 		.iter().map(|(s, b)| (s.as_bytes().to_vec(), *b)).collect()
 }
 
